@@ -15,7 +15,8 @@ EXTENDS BufioP, FiniteSets, TLC
 
 CONSTANTS Classes,      \* stream alphabet classes: subset of {"x","X","r","n"}; "X" = Pad times 'x'
           Pad,
-          MaxSyms,      \* streams = all class sequences of length <= MaxSyms
+          MaxSyms,      \* streams = all class sequences of length <= MaxSyms ...
+          MaxLen,       \* ... that expand to at most MaxLen bytes
           ChunkPats,    \* set of chunk patterns, coded: c < 1000 is <<c>>, a*1000+b is <<a, b>>
           EofModes,     \* subset of BOOLEAN: EOF together with the last bytes?
           ReadSizes, PeekSizes, Delims
@@ -31,7 +32,7 @@ ClassBytes(c) == IF c = "x" THEN <<0>> ELSE IF c = "X" THEN Rep(0, Pad)
                  ELSE IF c = "r" THEN <<CR>> ELSE <<LF>>
 RECURSIVE Expand(_)
 Expand(cs) == IF cs = <<>> THEN <<>> ELSE ClassBytes(Head(cs)) \o Expand(Tail(cs))
-Streams == {Expand(cs) : cs \in UNION {[1..n -> Classes] : n \in 0..MaxSyms}}
+Streams == {s \in {Expand(cs) : cs \in UNION {[1..n -> Classes] : n \in 0..MaxSyms}} : Len(s) <= MaxLen}
 
 DecodePat(c) == IF c >= 1000 THEN <<c \div 1000, c % 1000>> ELSE <<c>>
 Min3(a, b, c) == Min(a, Min(b, c))
